@@ -192,7 +192,7 @@ func Run(ctx *common.Ctx) int {
 		"concurrent_states":    concStates,
 		"distinct_nontrivial":  distinct.Len() + 1,
 		"rule": "Threshold: the whole domain s=1..10^6 against an exact integer predicate; ThresholdQ: every ordered list of length 1..3 over a 39-value alphabet (0, 1, mid-bins, the floats below/at/above every edge 0.1..0.9), every partition of 20 and 50 into <=10 bin counts in three arrangements and several orders, two one-parameter families of length 1000; " +
-			"oracle: exact rational chi-square and 320-bit Q(9/2, .), tolerance 1e-12; order independence bit-for-bit; distinct = distinct bin-count multisets",
+			"oracle: exact rational chi-square and 192-bit Q(9/2, .), tolerance 1e-12; order independence bit-for-bit; distinct = distinct bin-count multisets",
 		"samples":    samples,
 		"exhaustive": true,
 	}
